@@ -7,6 +7,7 @@ import (
 	"crypto/sha256"
 	"encoding/binary"
 	"fmt"
+	"sync"
 
 	"github.com/polynetwork/poly/common"
 	"github.com/polynetwork/poly/core/payload"
@@ -82,43 +83,65 @@ func mkTx(i int) *types.Transaction {
 	return out
 }
 
-func main() {
-	r := ev.Start("C03", "exploration")
-	N := r.QT(130, 1100)
-	NB := r.QT(130, 400) // block-level paths (build + decode real blocks)
-	r.Require("root_ok", "block_accept", "block_reject_wrong_root")
-	for n := 0; n <= N; n++ {
-		for _, fam := range []string{"distinct", "allequal", "lasttwoequal"} {
-			leaves := family(fam, n)
-			want := refRoot(leaves)
-			work := append([]common.Uint256{}, leaves...)
-			var got common.Uint256
-			if rec, p := ev.Guard(func() { got = common.ComputeMerkleRoot(work) }); p {
-				r.Violation(fmt.Sprintf("ComputeMerkleRoot:panic:n=%d", n), map[string]any{"n": n, "family": fam, "panic": fmt.Sprint(rec)})
-				continue
-			}
-			r.Eval()
-			r.Case(fmt.Sprintf("n=%d/%s", n, fam))
-			if got != want {
-				r.Violation(fmt.Sprintf("ComputeMerkleRoot:mismatch:%s", fam), map[string]any{"n": n, "family": fam,
-					"got": got.ToHexString(), "want": want.ToHexString()})
-			} else {
-				r.Class("root_ok")
-			}
-			if n == 0 && got != (common.Uint256{}) {
-				r.Violation("ComputeMerkleRoot:empty-not-zero", map[string]any{"got": got.ToHexString()})
-			}
-			if n <= 5 && fam == "distinct" {
-				r.Sample(map[string]any{"n": n, "family": fam, "root": got.ToHexString()})
-			}
+func rootCases(r *ev.Run, n int) {
+	for _, fam := range []string{"distinct", "allequal", "lasttwoequal"} {
+		leaves := family(fam, n)
+		want := refRoot(leaves)
+		work := append([]common.Uint256{}, leaves...)
+		var got common.Uint256
+		if rec, p := ev.Guard(func() { got = common.ComputeMerkleRoot(work) }); p {
+			r.Violation(fmt.Sprintf("ComputeMerkleRoot:panic:%s", fam), map[string]any{"n": n, "family": fam, "panic": fmt.Sprint(rec)})
+			continue
+		}
+		r.Eval()
+		r.Case(fmt.Sprintf("n=%d/%s", n, fam))
+		if got != want {
+			r.Violation(fmt.Sprintf("ComputeMerkleRoot:mismatch:%s", fam), map[string]any{"n": n, "family": fam,
+				"got": got.ToHexString(), "want": want.ToHexString()})
+		} else {
+			r.Class("root_ok")
+		}
+		if n == 0 && got != (common.Uint256{}) {
+			r.Violation("ComputeMerkleRoot:empty-not-zero", map[string]any{"got": got.ToHexString()})
+		}
+		if n <= 5 && fam == "distinct" {
+			r.Sample(map[string]any{"n": n, "family": fam, "root": got.ToHexString()})
 		}
 	}
+}
+
+func main() {
+	r := ev.Start("C03", "exploration")
+	N := r.QT(4200, 9000) // crosses 1024/2048/4096 (chunked or parallel implementations change shape there)
+	NB := r.QT(130, 400)  // block-level paths (build + decode real blocks)
+	r.Require("root_ok", "block_accept", "block_reject_wrong_root")
+	var wg sync.WaitGroup
+	nch := make(chan int, 64)
+	for w := 0; w < 12; w++ {
+		wg.Add(1)
+		go func() {
+			defer wg.Done()
+			for n := range nch {
+				rootCases(r, n)
+			}
+		}()
+	}
+	for n := 0; n <= N; n++ {
+		nch <- n
+	}
+	close(nch)
+	wg.Wait()
 	// Block-level: RebuildMerkleRoot and the decoder's root check over real transactions.
-	txs := make([]*types.Transaction, NB)
+	txs := make([]*types.Transaction, 2600)
 	for i := range txs {
 		txs[i] = mkTx(i)
 	}
+	sizes := []int{}
 	for n := 0; n <= NB; n++ {
+		sizes = append(sizes, n)
+	}
+	sizes = append(sizes, 1023, 1024, 1025, 1100, 1536, 1537, 2047, 2048, 2049, 2600) // blocks above the chunk boundaries too
+	for _, n := range sizes {
 		blk := &types.Block{Header: &types.Header{Version: 0, ConsensusPayload: []byte{}}, Transactions: txs[:n]}
 		hashes := make([]common.Uint256, n)
 		for i := 0; i < n; i++ {
